@@ -147,6 +147,30 @@ func c05Families(tier string) []explore.Family {
 			r.Violation(c05BodyKey("P5:comment-body-ignored", src, "endcomment"), map[string]any{"template": src}, `"MARK"`, o.String())
 		}
 	}})
+	// code points that tools like to "clean up" (byte-order mark, zero-width and no-break spaces, line and paragraph
+	// separators, NUL, CR, DEL, a lone continuation byte, the replacement character, a private-use and a non-BMP
+	// character) at the start, in the middle and at the end of text, of a raw body, of a comment-adjacent text and
+	// of a printed value: everything outside tags reaches the output unchanged
+	specials := []string{"\ufeff", "\u200b", "\u00a0", "\u2028", "\u2029", "\x00", "\r", "\r\n", "\x7f", "\x80", "\ufffd", "\ue000", "\U0001f600", "\u0085", "\u00ad", "\ufeff\ufeff", "\xef\xbb", "\xff\xfe", "\t", "\v", "\f"}
+	spForms := []struct{ src, want string }{
+		{"%shello", "%shello"}, {"he%sllo", "he%sllo"}, {"hello%s", "hello%s"}, {"%s", "%s"},
+		{"%s{% raw %}r{% endraw %}", "%sr"}, {"{% raw %}%sr%s{% endraw %}%s", "%sr%s%s"}, {"%s{% comment %}c{% endcomment %}%s", "%s%s"},
+		{"%s{{ x }}%s", "%sX%s"}, {"{{ v }}", "%s"}, {"a{{ v }}b{{ v }}", "a%sb%s"}, {"%s{% if true %}%s{% endif %}%s", "%s%s%s"}, {"%s\n{{ x }}", "%s\nX"},
+	}
+	fams = append(fams, explore.Family{Name: "special-code-points", Count: int64(len(specials) * len(spForms)), Run: func(i int64, r *explore.Rec) {
+		sp, f := specials[int(i)%len(specials)], spForms[int(i)/len(specials)]
+		src := strings.ReplaceAll(f.src, "%s", sp)
+		want := strings.ReplaceAll(f.want, "%s", sp)
+		r.Eval()
+		r.Trace()
+		o := Render(c05.eng, src, map[string]any{"x": "X", "v": sp})
+		r.Class("special-code-point/" + o.Class())
+		if o.Panic != nil || o.Err != nil || o.Out != want {
+			r.Violation("P3:special-code-point-altered", map[string]any{"template": strconv.Quote(src), "code_point": strconv.QuoteToASCII(sp)}, strconv.QuoteToASCII(want), strconv.QuoteToASCII(o.Out)+fmt.Sprint(" err=", o.Err))
+		}
+		// and the tokenizer still partitions the source
+		c05Scan(r, src, "special code point")
+	}})
 	// a string value (and a raw body) is emitted exactly even when the NEIGHBOURING tag or object carries a
 	// whitespace-control hyphen: hyphens act on the literal text next to a tag, never on what a value prints
 	wsAlpha := []string{" ", "\n", "\t", "a"}
